@@ -23,7 +23,7 @@ pub struct Case {
 
 fn base_scenario(prog: &Program, leader: usize, out_mask: &[bool], inputs: &[u64], strategy: Strategy, comp_id: u128) -> Scenario {
     let pols = (0..prog.parties).map(|p| server::policy_for(prog, comp_id, p, leader, inputs[p], out_mask[p])).collect();
-    Scenario { policies: vec![pols], concurrency: 2, strategy, gate_msgs: true, fail_rpc: None, injections: vec![], skip_schedule: vec![], max_steps: 20_000, fail_outputs: false }
+    Scenario { policies: vec![pols], concurrency: 2, strategy, gate_msgs: true, fail_rpc: None, injections: vec![], skip_schedule: vec![], max_steps: 20_000, fail_outputs: false, alt_policies: vec![] }
 }
 
 /// number of idle points of the undisturbed run (for "inject at every point k")
@@ -60,6 +60,9 @@ pub fn cases_c14(tier: &str, seed: u64) -> Vec<Case> {
                         Inject::MpcMsg { comp: 0, party, from: n },
                         Inject::MpcMsg { comp: 0, party, from: n + 1 },
                         Inject::MpcMsg { comp: 0, party, from: usize::MAX },
+                        Inject::Consts { comp: 0, party, from: n },
+                        Inject::ConstsNonEmpty { comp: 0, party, from: n + 2 },
+                        Inject::ConstsNonEmpty { comp: 0, party, from: usize::MAX },
                     ];
                     if k == 0 {
                         injs.push(Inject::MpcMsg { comp: 0, party, from: (party + 1) % n });
@@ -68,7 +71,7 @@ pub fn cases_c14(tier: &str, seed: u64) -> Vec<Case> {
                     if !thorough {
                         // quick: rotate through the kinds instead of taking all of them at every point
                         let keep = (k + party + seed as usize) % 3;
-                        injs = injs.into_iter().enumerate().filter(|(i, _)| i % 3 == keep || (k == 0 && *i >= 7)).map(|(_, x)| x).collect();
+                        injs = injs.into_iter().enumerate().filter(|(i, _)| i % 3 == keep || (k == 0 && *i >= 10)).map(|(_, x)| x).collect();
                     }
                     for inj in injs {
                         let mut sc = base.clone();
@@ -86,10 +89,12 @@ fn inj_name(i: &Inject) -> String {
     match i {
         Inject::DupSchedule { .. } => "dup-schedule".into(),
         Inject::Run { .. } => "run".into(),
-        Inject::Consts { .. } => "consts".into(),
+        Inject::Consts { from, .. } => format!("consts(from={})", if *from == usize::MAX { "usize::MAX".to_string() } else { from.to_string() }),
+        Inject::ConstsNonEmpty { from, .. } => format!("consts-nonempty(from={})", if *from == usize::MAX { "usize::MAX".to_string() } else { from.to_string() }),
         Inject::Validate { .. } => "validate".into(),
         Inject::MpcMsg { from, .. } => format!("mpc_msg(from={})", if *from == usize::MAX { "usize::MAX".to_string() } else { from.to_string() }),
         Inject::Cancel { .. } => "cancel".into(),
+        Inject::AltSchedule { .. } => "alt-schedule".into(),
     }
 }
 
@@ -116,6 +121,9 @@ fn judge_c14(c: &Case, rec: &RunRecord) -> Vec<(String, Value)> {
             from >= n || !scheduled_before
         } else if inj.what == "dup-schedule" {
             scheduled_before
+        } else if inj.what.starts_with("consts") && inj.what.contains("from=") {
+            // out-of-range party index
+            true
         } else if inj.what == "run" || inj.what == "consts" {
             if p == leader { !scheduled_before } else { !validate_released_before }
         } else if inj.what == "validate" {
@@ -302,6 +310,22 @@ pub fn cases_c16(tier: &str, seed: u64) -> Vec<Case> {
                     }
                 }
             }
+            // the incompatible follower is re-scheduled with the leader's program while it waits for
+            // validation; the re-schedule is refused (wrong state) and must not change what is validated
+            for f in (0..n).filter(|f| *f != leader) {
+                let inputs: Vec<u64> = (0..n as u64).map(|p| (seed + 9 * p) % 256).collect();
+                let mask = vec![true; n];
+                for k in 1..=4usize {
+                    for st in [Strategy::Script(vec![f.min(n - 1)]), Strategy::Script(vec![f, 0, 0]), Strategy::Random(seed ^ (k as u64 * 131 + f as u64))] {
+                        let mut sc = base_scenario(prog, leader, &mask, &inputs, st, 0x16200 + pi as u128);
+                        let good = sc.policies[0][f].clone();
+                        sc.policies[0][f].program = good.program.replace('^', "&").replace("a > b", "b > a");
+                        sc.alt_policies = vec![good];
+                        sc.injections = vec![(When::Step(k), Inject::AltSchedule { comp: 0, party: f, alt: 0 })];
+                        v.push(Case { prop: "C16", key: format!("{} L{} refused-reschedule at p{} step{}", prog.name, leader, f, k), sc, progs: vec![(*prog).clone()], inputs: vec![inputs.clone()], out_masks: vec![mask.clone()], leaders: vec![leader], mismatch: Some((f, "program-after-refused-reschedule")) });
+                    }
+                }
+            }
             // ill-typed program at one party
             for bad in 0..n {
                 let inputs: Vec<u64> = (0..n as u64).map(|p| (seed + 5 * p) % 256).collect();
@@ -322,6 +346,16 @@ fn judge_c16(c: &Case, rec: &RunRecord) -> Vec<(String, Value)> {
     let (f, kind) = c.mismatch.unwrap_or((0, ""));
     let leader = c.leaders[0];
     let res = |p: usize| rec.schedule.iter().find(|s| s.party == p).and_then(|s| s.result.clone());
+    if kind == "program-after-refused-reschedule" {
+        // the scenario only exists if the incompatible schedule came first and the re-schedule was refused
+        let orig = rec.schedule.iter().find(|s| s.party == f).map(|s| s.t_call);
+        let alt = rec.injected.iter().find(|i| i.what == "alt-schedule");
+        let refused = alt.and_then(|a| a.result.clone()).map(|r| r.starts_with("Err")).unwrap_or(false);
+        let ordered = match (orig, alt) { (Some(o), Some(a)) => o < a.t_call, _ => false };
+        if !(refused && ordered) {
+            return out;
+        }
+    }
     let must_fail: Vec<usize> = if kind == "ill-typed" { vec![f] } else { vec![f, leader] };
     for p in must_fail {
         match res(p) {
@@ -388,7 +422,7 @@ pub fn cases_c17(tier: &str, seed: u64) -> Vec<Case> {
         if i % 5 == 4 {
             injections.push((When::Step(rng.random_range(0..30)), Inject::Cancel { comp: rng.random_range(0..batch), party: rng.random_range(0..2) }));
         }
-        let sc = Scenario { policies: pols, concurrency, strategy: Strategy::Random(seed ^ (i as u64).wrapping_mul(0x9e3779b97f4a7c15)), gate_msgs: i % 2 == 0, fail_rpc: fail, injections, skip_schedule: vec![], max_steps: 60_000, fail_outputs: i % 7 == 3 };
+        let sc = Scenario { policies: pols, concurrency, strategy: Strategy::Random(seed ^ (i as u64).wrapping_mul(0x9e3779b97f4a7c15)), gate_msgs: i % 2 == 0, fail_rpc: fail, injections, skip_schedule: vec![], max_steps: 60_000, fail_outputs: i % 7 == 3, alt_policies: vec![] };
         v.push(Case { prop: "C17", key: format!("batch{batch} conc{concurrency} fail={} cancel={} dest-unreachable={}", fail.map(|(k, _)| format!("{k:?}")).unwrap_or("none".into()), i % 5 == 4, i % 7 == 3), sc, progs: ps, inputs, out_masks: masks, leaders, mismatch: None });
     }
     // the two single-computation shapes named in the property, for every failing RPC kind and output choice
